@@ -101,6 +101,9 @@ def variants(c):
     if op == "ufb":
         v = [("bytes",), ("bytearray",), ("memoryview",), ("ndarray.data-1byte", "uint8"), ("ndarray.data-1byte", "int8")]
         v += [("ndarray.data-multibyte", k) for w in (2, 4, 8) if n > 0 and n % w == 0 for k in NP_KINDS[w]]
+        # other bytes-like objects of python whose items are wider than one byte (buffer protocol, no .nbytes attribute)
+        v += [("array.array", tc) for w, tc in ((2, "H"), (4, "i"), (8, "d")) if n > 0 and n % w == 0]
+        v += [("ctypes-array", w) for w in (2, 8) if n > 0 and n % w == 0]
         if n >= 2:
             v += [("ndarray.data-2D", r) for r in divisors(n) if r < n][:3]
         v += [("Scalar._to_buffer", k) for k in NP_KINDS.get(n, [])]
@@ -235,6 +238,16 @@ class World:
             elif t == "ndarray.data-2D":
                 self._hold = self.typed(data, "uint8").reshape(var[1], n // var[1])
                 src = self._hold.data
+            elif t == "array.array":
+                import array as _array
+                src = _array.array(var[1])
+                src.frombytes(bd)
+                if src.itemsize * len(src) != len(bd):
+                    raise Skip("array-itemsize")
+            elif t == "ctypes-array":
+                import ctypes
+                ct = {2: ctypes.c_uint16, 8: ctypes.c_int64}[var[1]]
+                src = (ct * (len(bd) // var[1])).from_buffer_copy(bd)
             if t == "Scalar._to_buffer":
                 sc, val = getattr(xo, XO_SCALAR[var[1]]), self.typed(data, var[1])[0]
                 call = lambda: sc._to_buffer(buf, off, val)
